@@ -195,8 +195,8 @@ def r3_shutdown_protocol(ctx):
                   'events buffered by the handler are flushed before the shutdown request is processed', takes[0].where())
 
 
-def r4_restart(ctx):
-    ctx.set_rule('C09.R4')
+def r4_restart(ctx, rule='C09.R4'):
+    ctx.set_rule(rule)
     f = ctx.anchor(EV + 'module_restart')
     if not f:
         return
